@@ -61,6 +61,148 @@ Proof.
   - apply IH. intros y Hy. apply H. now right.
 Qed.
 
+(* ---------------------------------------------------------------- generic facts *)
+Lemma nondecreasing_filter {A} (f : A -> nat) (P : A -> bool) l :
+  nondecreasing (map f l) = true -> nondecreasing (map f (filter P l)) = true.
+Proof.
+  induction l as [|x r IH]; intros H; [reflexivity|]. cbn [map] in H. apply nondecreasing_cons in H.
+  destruct H as [H1 H2]. cbn [filter]. destruct (P x); [|auto]. cbn [map]. apply nondecreasing_cons.
+  split; [|auto]. intros y Hy. apply H1. apply in_map_iff in Hy. destruct Hy as (z & <- & Hz).
+  apply in_map. apply filter_In in Hz. tauto.
+Qed.
+
+Lemma nondecreasing_map_S l : nondecreasing l = true -> nondecreasing (map S l) = true.
+Proof.
+  induction l as [|x r IH]; intros H; [reflexivity|]. apply nondecreasing_cons in H. destruct H as [H1 H2].
+  cbn [map]. apply nondecreasing_cons. split; [|auto]. intros y Hy. apply in_map_iff in Hy.
+  destruct Hy as (z & <- & Hz). specialize (H1 z Hz). lia.
+Qed.
+
+(* index of the first predicate that holds *)
+Fixpoint first_true (cs : list (N -> bool)) (n : N) : nat :=
+  match cs with
+  | [] => 0%nat
+  | c :: r => if c n then 0%nat else S (first_true r n)
+  end.
+
+Lemma first_true_le cs n : (first_true cs n <= List.length cs)%nat.
+Proof. induction cs as [|c r IH]; cbn; [lia|]. destruct (c n); lia. Qed.
+
+Lemma first_true_lt cs n : (first_true cs n < List.length cs)%nat <-> exists c, In c cs /\ c n = true.
+Proof.
+  induction cs as [|c r IH]; cbn [first_true List.length].
+  - split; [lia|intros (c & [] & _)].
+  - destruct (c n) eqn:E.
+    + split; [intros _; exists c; split; [now left|assumption]|lia].
+    + rewrite <- Nat.succ_lt_mono, IH. split; intros (c' & Hc & Ec); exists c'.
+      * split; [now right|assumption].
+      * destruct Hc as [<-|Hc]; [congruence|tauto].
+Qed.
+
+Lemma first_true_nth cs n k c : nth_error cs k = Some c -> c n = true -> (first_true cs n <= k)%nat.
+Proof.
+  revert k. induction cs as [|c0 r IH]; intros k Hk Hc; [destruct k; discriminate|].
+  cbn [first_true]. destruct (c0 n) eqn:E; [lia|]. destruct k as [|k']; cbn in Hk.
+  - injection Hk as ->. congruence.
+  - specialize (IH k' Hk Hc). lia.
+Qed.
+
+(* segments that contain exactly the nodes satisfying their predicate, chained and
+   de-duplicated, are sorted by the index of the first predicate a node satisfies *)
+Lemma uniq_concat_sorted (cs : list (N -> bool)) (segs : list (list N)) :
+  Forall2 (fun c Sg => forall n, In n Sg <-> c n = true) cs segs ->
+  nondecreasing (map (first_true cs) (uniq (concat segs))) = true.
+Proof.
+  induction 1 as [|c Sg cs' segs' Hc Hrest IH]; [reflexivity|]. cbn [concat].
+  unfold uniq. rewrite (uniq_by_app N.eqb Neqb_eq), map_app. fold (uniq Sg). fold (uniq (concat segs')).
+  apply nondecreasing_app.
+  - apply (nondecreasing_const 0%nat). intros x Hx. apply in_map_iff in Hx. destruct Hx as (n & <- & Hn).
+    rewrite uniq_In in Hn. apply Hc in Hn. cbn [first_true]. now rewrite Hn.
+  - set (P := fun x => negb (mem_by N.eqb x Sg)).
+    assert (E : map (first_true (c :: cs')) (filter P (uniq (concat segs'))) =
+                map S (map (first_true cs') (filter P (uniq (concat segs'))))).
+    { rewrite map_map. apply map_ext_in. intros n Hn. apply filter_In in Hn. destruct Hn as [_ Hn].
+      unfold P in Hn. apply negb_true_iff, (mem_by_false N.eqb Neqb_eq) in Hn.
+      cbn [first_true]. destruct (c n) eqn:E; [|reflexivity]. apply Hc in E. contradiction. }
+    rewrite E. apply nondecreasing_map_S. now apply nondecreasing_filter.
+  - intros x y Hx Hy. apply in_map_iff in Hx. destruct Hx as (n & <- & Hn).
+    rewrite uniq_In in Hn. apply Hc in Hn. cbn [first_true]. rewrite Hn. lia.
+Qed.
+
+(* ---------------------------------------------------------------- de-duplication of targets *)
+Section Dedup.
+  Variable shf : N -> N.
+  Definition consistent (x : target) : Prop := snd x = None \/ snd x = Some (shf (fst x)).
+
+  Lemma cmp_consistent x y : consistent x -> consistent y -> target_cmp x y = N.eqb (fst x) (fst y).
+  Proof.
+    unfold consistent, target_cmp. destruct x as [n s], y as [m u]. cbn [fst snd].
+    intros [->| ->] [->| ->]; try now rewrite andb_true_r.
+    destruct (N.eqb n m) eqn:E; [|reflexivity]. apply N.eqb_eq in E. subst. cbn. apply N.eqb_refl.
+  Qed.
+
+  Lemma existsb_cmp x kept : consistent x -> Forall consistent kept ->
+    existsb (target_cmp x) kept = mem (fst x) (map fst kept).
+  Proof.
+    intros Hx Hk. induction Hk as [|y r Hy Hr IH]; [reflexivity|]. cbn [existsb map].
+    unfold mem. cbn [mem_by existsb]. fold (mem (fst x) (map fst r)). now rewrite cmp_consistent, IH.
+  Qed.
+
+  Lemma dedup_aux_ext kept kept' l : Forall consistent kept -> Forall consistent kept' -> Forall consistent l ->
+    (forall n, In n (map fst kept) <-> In n (map fst kept')) -> dedup_aux kept l = dedup_aux kept' l.
+  Proof.
+    intros Hk Hk' Hl. revert kept kept' Hk Hk'. induction Hl as [|x r Hx Hr IH]; intros kept kept' Hk Hk' He; [reflexivity|].
+    cbn [dedup_aux]. rewrite !existsb_cmp by assumption. unfold mem.
+    rewrite (mem_by_ext N.eqb Neqb_eq (fst x) _ _ He).
+    destruct (mem_by N.eqb (fst x) (map fst kept')); [now apply IH|]. f_equal.
+    apply IH; try (constructor; assumption). intros n. cbn [map In]. rewrite He. tauto.
+  Qed.
+
+  (* a chain  map mk A ++ rest  where mk builds a consistent target of the given node *)
+  Lemma dedup_aux_map_app (mk : N -> target) A rest kept :
+    (forall n, fst (mk n) = n) -> (forall n, consistent (mk n)) ->
+    Forall consistent kept -> Forall consistent rest ->
+    dedup_aux kept (map mk A ++ rest) =
+    map mk (uniq_aux N.eqb (map fst kept) A) ++ dedup_aux (map mk A ++ kept) rest.
+  Proof.
+    intros Hf Hc. revert kept. induction A as [|a A' IH]; intros kept Hk Hr; [reflexivity|].
+    cbn [map app dedup_aux uniq_aux]. rewrite existsb_cmp by auto. rewrite Hf. unfold mem.
+    assert (Hmk : forall l, Forall consistent (map mk l)).
+    { intros l. apply Forall_forall. intros x Hx. apply in_map_iff in Hx. destruct Hx as (n & <- & _). auto. }
+    destruct (mem_by N.eqb a (map fst kept)) eqn:E.
+    - rewrite IH by assumption. f_equal. apply dedup_aux_ext; try assumption.
+      + apply Forall_app. split; [apply Hmk|assumption].
+      + constructor; [auto|]. apply Forall_app. split; [apply Hmk|assumption].
+      + intros n. cbn [map In]. rewrite Hf. apply (mem_by_In N.eqb Neqb_eq) in E.
+        rewrite !map_app, !in_app_iff. split; [tauto|]. intros [<-|H]; tauto.
+    - cbn [map app]. f_equal. rewrite IH by (try constructor; auto). cbn [map]. rewrite Hf. f_equal.
+      apply dedup_aux_ext; try assumption.
+      + apply Forall_app. split; [apply Hmk|]. constructor; auto.
+      + constructor; [auto|]. apply Forall_app. split; [apply Hmk|assumption].
+      + intros n. cbn [map In]. rewrite !map_app, !in_app_iff. cbn [map In]. tauto.
+  Qed.
+
+  Definition with_shard (n : N) : target := (n, Some (shf n)).
+  Definition no_shard (n : N) : target := (n, @None N).
+
+  Lemma dedup_chain A B :
+    dedup (map with_shard A ++ map no_shard B) =
+    map with_shard (uniq A) ++ map no_shard (filter (fun n => negb (mem n A)) (uniq B)).
+  Proof.
+    unfold dedup.
+    assert (Hw : forall l, Forall consistent (map with_shard l)).
+    { intros l. apply Forall_forall. intros x Hx. apply in_map_iff in Hx. destruct Hx as (n & <- & _). now right. }
+    assert (Hn : forall l, Forall consistent (map no_shard l)).
+    { intros l. apply Forall_forall. intros x Hx. apply in_map_iff in Hx. destruct Hx as (n & <- & _). now left. }
+    rewrite (dedup_aux_map_app with_shard A (map no_shard B) []); auto; [|intros n; now right].
+    f_equal. rewrite app_nil_r.
+    rewrite <- (app_nil_r (map no_shard B)).
+    rewrite (dedup_aux_map_app no_shard B [] (map with_shard A)); auto; [|intros n; now left].
+    cbn [dedup_aux]. rewrite app_nil_r. f_equal. rewrite map_map. cbn [with_shard fst]. rewrite map_id.
+    apply (uniq_aux_filter N.eqb Neqb_eq).
+  Qed.
+End Dedup.
+
 Section PlanProofs.
   Variables (dcf rackf : N -> option N) (g : ring N) (keyspaces : list (N * strategy)).
   Variables (enabled connected : N -> bool) (shf : N -> N) (pol : policy) (rq : request).
